@@ -292,7 +292,7 @@ class Exec:
         return outs
 
     def run_handler(self, h, p, exc, fr):
-        q = p.fork(note=f'except@{h.lineno}')
+        q = p.fork(note=f'except@{h.lineno}[{getattr(exc, "typ", "?")}@L{getattr(exc, "where", "?")}]')
         if h.name: q.env[h.name] = exc
         old = fr.handling; fr.handling = exc
         try:
@@ -374,6 +374,7 @@ class Exec:
                         key = _const_key(ix)
                         if key is None: raise Unsupported(f'symbolic dict key store at line {t.lineno}')
                         q2 = q1.fork(); d = dict(q2.cell(o.oid).get('map', {})); d[key] = v; q2.write(o.oid, 'map', d)
+                        if q2.cell(o.oid).get('open'): q2.write(o.oid, 'ver', q2.cell(o.oid).get('ver', 0) + 1)
                         outs.append((q2, None)); continue
                     raise Unsupported(f'subscript store on {o!r} at line {t.lineno}')
             return outs
@@ -1127,6 +1128,10 @@ class Exec:
 
     def contains(self, a, b, p, node):
         S = self.S
+        if isinstance(a, VAny) and isinstance(b, VRef) and b.cls == 'dict':
+            return z3.Or([z3.And(c, self.contains(x, b, p, node)) for c, x in a.alts])
+        if isinstance(a, VOpt) and isinstance(b, VRef) and b.cls == 'dict':
+            return z3.If(a.isnone, self.contains(NONE, b, p, node), self.contains(a.inner, b, p, node))
         if isinstance(b, VGlobal) and b.pyval is not None and isinstance(a, VStr):
             if a.lit is not None: return z3.BoolVal(a.lit in b.pyval)
             return S.in_table(a, b)
@@ -1139,6 +1144,10 @@ class Exec:
         if isinstance(b, VRef) and b.cls == 'dict':
             key = _const_key(a); cell = p.cell(b.oid)
             if key is not None and not cell.get('open'): return z3.BoolVal(key in cell.get('map', {}))
+            if key is not None and key in cell.get('map', {}): return z3.BoolVal(True)
+            if cell.get('open') and isinstance(a, (VStr, VNone)):
+                # membership in a dict of unknown content: a predicate of (dict, its store version, key), shared with the subscript below
+                return S.app(f"IN_DICT_{b.oid}_{cell.get('ver', 0)}", [a.code if isinstance(a, VStr) else z3.IntVal(-7)], B)
             return fresh(B, 'in_dict')
         if isinstance(b, VRef) and b.cls == 'set': return fresh(B, 'in_set')
         if isinstance(b, VUnk) or isinstance(a, VUnk): return fresh(B, 'in')
@@ -1286,6 +1295,14 @@ class Exec:
             key = _const_key(ix); cell = p.cell(base.oid)
             if key is not None and key in cell.get('map', {}): return [(p, cell['map'][key])]
             if cell.get('open'):
+                if isinstance(ix, (VStr, VNone)):
+                    hit = self.S.app(f"IN_DICT_{base.oid}_{cell.get('ver', 0)}", [ix.code if isinstance(ix, VStr) else z3.IntVal(-7)], B)
+                    outs = []
+                    q2 = p.fork(hit)
+                    if self.feasible(q2.pc): outs.append((q2, cell['mkval'](self, q2) if cell.get('mkval') else VUnk('dictval')))
+                    q2 = p.fork(z3.Not(hit))
+                    if self.feasible(q2.pc): outs.append((q2, Raised(VExc('KeyError', where=node.lineno))))
+                    return outs
                 return [(p, VUnk('dictval')), (p.fork(), Raised(VExc('KeyError', where=node.lineno)))]
             return [(p, Raised(VExc('KeyError', where=node.lineno)))]
         if isinstance(base, VRef) and base.cls == 'list' and p.cell(base.oid).get('items') is None and 'code' in p.cell(base.oid):
@@ -1327,6 +1344,7 @@ class Exec:
             if attr in cell: return [(p, cell[attr])]
             cq = cell['__class__']
             mod, cname = cq.split(':')
+            if mod == 're': return [(p, VFunc(builtin=f'<method>.{attr}', bound_self=o))]
             m = self.prog.modules.get(mod)
             if m and f'{cname}.{attr}' in m.funcs:
                 fn = m.funcs[f'{cname}.{attr}']
